@@ -553,6 +553,10 @@ class NPModel(NSModel):
 
     def linspace(self, a, b, n=50, endpoint=True, **kw):
         I = _imp()
+        if isinstance(n, T):
+            if n.op != "c":
+                raise I.Unsupported("np.linspace with a symbolic number of points")
+            n = n.args[0]
         n = int(n)
         div = (n - 1) if endpoint else n
         a, b = I.to_term(a), I.to_term(b)
